@@ -202,3 +202,17 @@ def rules(t):
     shared.share(t, out, "C15.i", "retransmission stops only for messages a packet really carried: the ids remembered for a sent SmallReliable packet are exactly the ids of its messages", "C01", ("C01.l",))
     shared.share(t, out, "C15.j", "a due slice is not starved by slices that are merely looked at: the tick budget is charged only for bytes that are emitted", "C14", ("C14.a",))
     return out
+
+_rules_c15_w5b = rules
+def rules(t):
+    import rules.wave5 as W5
+    out = _rules_c15_w5b(t)
+    out.append(W5.ack_dispatch(t, "C15.k"))
+    return out
+
+_rules_c15_w5c = rules
+def rules(t):
+    import rules.wave5 as W5
+    out = _rules_c15_w5c(t)
+    out.append(W5.slice_scan_all(t, "C15.l"))
+    return out
